@@ -56,13 +56,15 @@ pub fn compile_with(
     } else {
         PackageResolver::memory(modules)
     };
+    // the entry function's parameter is nil: pass the id of the nil *type*
+    let nil_param = program.register_type(Type::nil());
     let compiled = Compiler::compile(
         ast,
         &HashMap::new(),
         &mut module_cache,
         &resolver,
         &mut program,
-        quiver_core::types::NIL,
+        nil_param,
         &HashMap::new(),
         builtins,
         None,
